@@ -46,6 +46,8 @@ def _mk(case):
     else:
         tin = Time(t, format="mjd", scale="tcb")
     kw = dict(t=tin, rv=v * unit, rv_err=err, clean=case["clean"])
+    if case.get("sort") is False:
+        kw["sort"] = False
     if case["t_ref"] == "explicit":
         kw["t_ref"] = Time(T0 - 5.0, format="mjd", scale="tcb")
     elif case["t_ref"] == "false":
@@ -61,13 +63,16 @@ def _state(d):
     return t, v, e
 
 
-def _check_against(d, exp_t, exp_v, exp_e, unit, cov, part, case, what):
+def _check_against(d, exp_t, exp_v, exp_e, unit, cov, part, case, what, want_sorted=True):
     t, v, e = _state(d)
     if len(d) != len(exp_t) or len(t) != len(exp_t) or len(v) != len(exp_t):
         part.violation(case, f"{what}: {len(t)} observations held, {len(exp_t)} expected", expected=list(exp_t), observed=list(t))
         return False
-    if np.any(np.diff(t) < 0):
+    if want_sorted and np.any(np.diff(t) < 0):
         part.violation(case, f"{what}: times not sorted", observed=list(t))
+        return False
+    if not want_sorted and t.tolist() != list(exp_t):
+        part.violation(case, f"{what}: sort=False but the observations are not held in the order given", expected=list(exp_t), observed=t.tolist())
         return False
     if d.rv.unit != unit or (d.rv_err.unit != (unit**2 if cov else unit)):
         part.violation(case, f"{what}: units changed", expected=str(unit), observed=(str(d.rv.unit), str(d.rv_err.unit)))
@@ -168,7 +173,7 @@ def run_case(case, part):
     tie = len(set(exp_t)) < len(exp_t)
     unsorted_in = any(np.diff(exp_t) < 0)
     part.record(case, outcome=(tuple(_state(d)[0]), tuple(_state(d)[1])), nontrivial=bool(dropped or tie or unsorted_in))
-    if not _check_against(d, exp_t, exp_v, exp_e, unit, cov, part, case, "construction"):
+    if not _check_against(d, exp_t, exp_v, exp_e, unit, cov, part, case, "construction", want_sorted=case.get("sort") is not False):
         return
     if not _tref_ok(d, case, exp_t, part, "construction"):
         return
@@ -250,6 +255,10 @@ def build_cases(quick):
                                         depth = 2 if (quick or n == 4) else 3
                                     cases.append(dict(t=list(tt), vbad=list(vbad), ebad=list(ebad), clean=clean,
                                                       tfmt=tfmt, unit=unit, t_ref=tref, depth=depth))
+                                    if unit == "km/s" and tfmt == "float":
+                                        # sort=False: same observations, held in input order; copy/slice re-sort (depth 1)
+                                        cases.append(dict(t=list(tt), vbad=list(vbad), ebad=list(ebad), clean=clean, tfmt=tfmt, unit=unit,
+                                                          t_ref=tref, depth=1 if not anybad else 0, sort=False))
     # covariance input: every permutation of 3 epochs, non-finite entries on/off the diagonal
     for perm in itertools.permutations(range(3)):
         for covbad in ([], [(0, 0)], [(1, 1)], [(0, 1)], [(1, 2)], [(0, 2)], [(0, 1), (2, 2)]):
